@@ -1,6 +1,6 @@
 (* Interleaving model of dispenso::SPSCRingBuffer (dispenso/spsc_ring_buffer.h) at the granularity of the
    DISPENSO_VERIF_POINT hooks: one step = one atomic load/store of head_/tail_ or one slot payload access
-   (placement-new of the pushed element; move-out + destructor of the popped element).
+   (placement-new of the pushed element; move-out of the popped element; its destructor call -- each its own step).
    Two threads: thread 0 and thread 1, each running a script of operations (the theorems restrict thread 0 to the
    producer-side operations and thread 1 to the consumer-side ones; the step function itself does not care).
    Indices live in [0, kBufferSize) exactly as in the code (`increment` wraps with & or %).
@@ -27,12 +27,13 @@ Inductive op :=
 Inductive pc :=
 | PStart
 | PPushLoadTail (v : Z) | PPushLoadHead (v ct : Z) | PPushWrite (v ct : Z) | PPushStoreTail (v ct : Z)
-| PPopLoadHead | PPopLoadTail (ch : Z) | PPopRead (ch : Z) | PPopStoreHead (ch v : Z)
+| PPopLoadHead | PPopLoadTail (ch : Z) | PPopRead (ch : Z) | PPopDestroy (ch v : Z) | PPopStoreHead (ch v : Z)
 | PBLoadTail (vs : list Z) | PBLoadHead (vs : list Z) (ct : Z)
 | PBWrite (vs : list Z) (tp cnt avail : Z) (wr : list Z)   (* at the hook inside the loop body; wr = values written so far (ghost) *)
 | PBStoreTail (tp cnt : Z) (wr : list Z)
 | PQLoadHead (m : Z) | PQLoadTail (m ch : Z)
 | PQRead (hp i cnt : Z) (acc : list Z)                     (* at the hook inside the loop body; acc = values read so far *)
+| PQDestroy (hp i cnt : Z) (acc : list Z)                  (* element i moved out (its value is the last of acc), before its destructor *)
 | PQStoreHead (hp cnt : Z) (acc : list Z)
 | PSizeLoadHead | PSizeLoadTail (h : Z) | PEmpty | PFull
 | PDone.
@@ -53,6 +54,7 @@ Definition s_pop_head_load := 5.   Definition s_pop_tail_load := 6.   Definition
 Definition s_pushb_tail_load := 9. Definition s_pushb_head_load := 10. Definition s_pushb_data_write := 11. Definition s_pushb_tail_store := 12.
 Definition s_popb_head_load := 13. Definition s_popb_tail_load := 14. Definition s_popb_data_read := 15.  Definition s_popb_head_store := 16.
 Definition s_size_head_load := 17. Definition s_size_tail_load := 18. Definition s_empty_loads := 19.     Definition s_full_loads := 20.
+Definition s_pop_data_destroy := 21. Definition s_popb_data_destroy := 22.
 
 (* result tags *)
 Definition r_push := 1.      (* (r_push, v): element v was accepted (single push, or one element of a batch) *)
@@ -95,9 +97,12 @@ Definition set_tail (s : state) (x : Z) : state := ST (K s) (head s) x (slots s)
 (* placement-new of an element with tag v into slot i *)
 Definition write_slot (s : state) (i v : Z) : state :=
   ST (K s) (head s) (tail s) (fupd (slots s) i v) (construct KMove i (led s)) (th0 s) (th1 s).
-(* move the element out of slot i and run its destructor *)
-Definition take_slot (s : state) (i : Z) : state :=
-  ST (K s) (head s) (tail s) (slots s) (destroy i (move_from i (led s))) (th0 s) (th1 s).
+(* move the element out of slot i *)
+Definition move_slot (s : state) (i : Z) : state :=
+  ST (K s) (head s) (tail s) (slots s) (move_from i (led s)) (th0 s) (th1 s).
+(* run the destructor of the (moved-from) element in slot i *)
+Definition destroy_slot (s : state) (i : Z) : state :=
+  ST (K s) (head s) (tail s) (slots s) (destroy i (led s)) (th0 s) (th1 s).
 
 (* try_push_batch: free space computed from the two loaded indices *)
 Definition avail_push (k ct chd : Z) : Z := if chd <=? ct then (k - 1) - (ct - chd) else chd - ct - 1.
@@ -124,7 +129,8 @@ Definition step (s : state) (t : nat) (ch : list Z) : option (state * list Z * Z
       | PPopLoadTail c =>
           if c =? tail s then ret s (next (logr th r_popfail 0)) s_pop_tail_load
           else ret s (goto th (PPopRead c)) s_pop_tail_load
-      | PPopRead c => ret (take_slot s c) (goto th (PPopStoreHead c (slots s c))) s_pop_data_read
+      | PPopRead c => ret (move_slot s c) (goto th (PPopDestroy c (slots s c))) s_pop_data_read
+      | PPopDestroy c v => ret (destroy_slot s c) (goto th (PPopStoreHead c v)) s_pop_data_destroy
       | PPopStoreHead c v => ret (set_head s (increment k c)) (next (logr th r_pop v)) s_pop_head_store
       (* try_push_batch *)
       | PBLoadTail vs => ret s (goto th (PBLoadHead vs (tail s))) s_pushb_tail_load
@@ -157,12 +163,12 @@ Definition step (s : state) (t : nat) (ch : list Z) : option (state * list Z * Z
           let cnt := Z.min avail m in
           if (avail =? 0) || (cnt =? 0) then ret s (next (logr th r_popb 0)) s_popb_tail_load
           else ret s (goto th (PQRead c 0 cnt [])) s_popb_tail_load
-      | PQRead hp i cnt acc =>
+      | PQRead hp i cnt acc => ret (move_slot s hp) (goto th (PQDestroy hp i cnt (acc ++ [slots s hp]))) s_popb_data_read
+      | PQDestroy hp i cnt acc =>
           let hp' := increment k hp in
-          let acc' := acc ++ [slots s hp] in
-          let s' := take_slot s hp in
-          if i + 1 <? cnt then ret s' (goto th (PQRead hp' (i + 1) cnt acc')) s_popb_data_read
-          else ret s' (goto th (PQStoreHead hp' cnt acc')) s_popb_data_read
+          let s' := destroy_slot s hp in
+          if i + 1 <? cnt then ret s' (goto th (PQRead hp' (i + 1) cnt acc)) s_popb_data_destroy
+          else ret s' (goto th (PQStoreHead hp' cnt acc)) s_popb_data_destroy
       | PQStoreHead hp cnt acc => ret (set_head s hp) (next (logr (logrs th r_pop acc) r_popb cnt)) s_popb_head_store
       (* observers *)
       | PSizeLoadHead => ret s (goto th (PSizeLoadTail (head s))) s_size_head_load
